@@ -183,6 +183,14 @@ func (e *Engine) rtCall(name string, args []Value, st *State, depth int, site ss
 	case "Freeze":
 		e.freeze(st)
 		return one(st, nil)
+	case "Commit":
+		// everything allocated so far becomes part of the shared base layer
+		for id, o := range st.heap {
+			o.stamp = -1
+			baseHeap[id] = o
+		}
+		st.heap = map[int]*Object{}
+		return one(st, nil)
 	case "SetOpt":
 		v := int(num(1))
 		switch str(0) {
